@@ -150,7 +150,7 @@ def hguard (hs : List Path) (name : Path) (whenHidden : Err) : Except Err Unit :
 exactly what the hidden check is applied to -/
 def guardedNames : Call → List Path
   | .rename o n => [o, n]
-  | .symlink o n => [if isAbs o then o else join (dir n) o, n]
+  | .symlink o n => [if isAbs o then o else join (dir (clean n)) o, n]
   | c => c.accessPaths
 
 def translate (hs : List Path) : Call → Except Err Call
@@ -184,7 +184,8 @@ def translate (hs : List Path) : Call → Except Err Call
   | .chtimes n a m => do hguard hs n .hiddenNotExist; pure (.chtimes n a m)
   | .lstat n => do hguard hs n .hiddenNotExist; pure (.lstat n)
   | .symlink o n => do
-      let eff := if isAbs o then o else join (dir n) o
+      -- since the repair of D27 the link's directory is taken from the CLEANED new name
+      let eff := if isAbs o then o else join (dir (clean n)) o
       hguard hs eff .hiddenPerm
       hguard hs n .hiddenPerm
       pure (.symlink o n)
